@@ -178,8 +178,6 @@ def main(argv=None):
     n_viol = 0
     replay_dir = OUT / "replays" / prop
     if not args.replay and not args.only and replay_dir.is_dir():
-        import shutil
-
         shutil.rmtree(replay_dir, ignore_errors=True)  # the directory reflects the last complete run
         try:
             replay_dir.parent.rmdir()
